@@ -22,7 +22,7 @@ def sh(cmd, cwd=None, env=None, timeout=3600):
 def main():
     pid, var = sys.argv[1], sys.argv[2]
     checks = sys.argv[3:] or [pid]
-    wt = f"{os.environ.get('SEED_WT', '/tmp/wt2')}/{pid}"
+    wt = f"{os.environ.get('SEED_WT', '/tmp/wt3')}/{pid}"
     src = f"{wt}/seeded/{var}"
     out = {"property": pid, "variant": var}
     rc, o = sh("git status --porcelain --untracked-files=no", cwd=wt)
@@ -61,7 +61,7 @@ def main():
     out["confirmed"] = bool(out["demo_without_patch_rc"] == 0 and out["demo_with_patch_rc"] != 0 and out["tests_passed_with_patch"] >= 60
                             and out["tests_failed_with_patch"] <= 1)
     out["caught_by"] = sorted(c for c, r in out.get("checks", {}).items() if r["exit"] == 1)
-    dst = os.path.join(VERIF, "seeded", f"{pid}-{os.environ.get('SEED_TAG', 'w2')}{var}")
+    dst = os.path.join(VERIF, "seeded", f"{pid}-{os.environ.get('SEED_TAG', 'w3')}{var}")
     os.makedirs(dst, exist_ok=True)
     for fn in ("patch.diff", "demo.py", "notes.md"):
         if os.path.exists(os.path.join(src, fn)):
